@@ -18,6 +18,7 @@ def load_open_findings(ctx):
 
 
 # ---- coverage round: every Serializable / Deserializable impl of utils/core/src/serde/mod.rs must be driven ----
+MEM_KB = 4 * 1024 * 1024   # 4 GB of address space for a harness process (the largest legitimate inputs are a few MB)
 READERS = ("SliceReader", "Cursor", "ReadAdapter")
 CLASSES = ("complete", "trailing", "truncated")
 # the encoding of () is empty: it has no proper prefix
@@ -126,7 +127,9 @@ def run(ctx):
             continue
         corr_cells, fals_cells = {}, {}
         if drv:
-            rc, out, _ = vcheck.sh(f"{hb} corr {ctx.seed} {n} 2>{vcheck.CACHE}/c12.dist", timeout=900)
+            # address-space limit: a reader that never reports end-of-data (seeded: Cursor::read_u8 answering Ok at EOF) turns a
+            # hostile element count into an unbounded allocation; it must end in an attributed abort, not in exhausting the machine
+            rc, out, _ = vcheck.sh(f"ulimit -v {MEM_KB}; {hb} corr {ctx.seed} {n} 2>{vcheck.CACHE}/c12.dist", timeout=900)
             try:
                 err = open(f"{vcheck.CACHE}/c12.dist").read().strip()
                 for l in err.split("\n"):
@@ -150,7 +153,7 @@ def run(ctx):
                                  "actual": "impl: " + dff["impl"][:600], "profile": profile,
                                  "replay": f"{hb} corr {ctx.seed} {n} | grep -F '{dff['case'][:80]}'"})
         budget = (300 if quick else 3000) * (3 if ctx.broken() else 1)
-        rc, out, _ = vcheck.sh([hb, "falsify", str(ctx.seed), str(budget)], timeout=1500)
+        rc, out, _ = vcheck.sh(f"ulimit -v {MEM_KB}; {hb} falsify {ctx.seed} {budget}", timeout=1500)
         nfail, delegated, seen_final, recs = 0, [], False, []
         for line in out.split("\n"):
             if line.startswith("{"):
